@@ -11,6 +11,7 @@ configuration and of the reference index (vf/sharesmodel.py).
 """
 from __future__ import annotations
 
+import asyncio
 import os
 import random
 from functools import reduce
@@ -18,7 +19,7 @@ from functools import reduce
 from .. import runner
 from ..monitors import TransferMonitor, safety_net_violations
 from ..sharesmodel import EVERYONE, FRIENDS, USERS, RefIndex
-from ..simloop import settle
+from ..simloop import settle, yields
 from ..simnet import ConnPlan
 from ..uploads import Downloader
 from ..world import World, run_world
@@ -38,7 +39,13 @@ RULE = (
     "PeerTransferRequest(direction upload) for paths exact, UPPER, lower, doubled and forward separators, unknown, "
     "deleted-from-disk, from every user); searches (ServerSearchRequest, FileSearch and, with a scripted distributed "
     "parent, DistributedSearchRequest; ExcludedSearchPhrases pushed in lower / UPPER / Mixed case); shares "
-    "(PeerSharesRequest, PeerDirectoryContentsRequest for a top directory, a sub-directory, an unknown one); mixed. "
+    "(PeerSharesRequest, PeerDirectoryContentsRequest for a top directory, a sub-directory, an unknown one); mixed; "
+    "double change (an upload to fred UPLOADING and held, a second upload to lisa/stan QUEUED / UPLOADING / aborted "
+    "for a configuration reason; change 1 forbids the first, after a seeded gap of 0-8 loop steps or 1-30 ms — for a "
+    "polled first change counted from the library's FriendListChanged/BlockListChanged notification — change 2 "
+    "forbids or permits the second; all change kinds, directory removal without rescan; both judged 3 s after the "
+    "second); nested (A contains B contains C, C or B removed / added again WITHOUT a rescan, then requests, "
+    "searches and shares requests for its files from every user: the files belong to the closest remaining parent). "
     "Every configuration change is followed by 3 virtual seconds (user-management poll 1 s + management cycle), then "
     "every upload is judged. Non-trivial: >= 1 decisive observation (a refused-expected request, a search / shares "
     "reply, an upload present when a change landed); distinct = (mode assignment, list signature, state of the upload "
@@ -58,16 +65,21 @@ ASSUMPTIONS = [
     "an upload aborted on the user's request that is (also) no longer permitted may keep the reason Requested",
     "excluded phrases are never part of a directory alias (such phrases are dropped before the push); a phrase is "
     "looked for in the file name the reply carries (remote path), case-insensitively",
+    "remove_shared_directory hands the files of a nested directory to the closest remaining shared parent and "
+    "add_shared_directory takes over the files of the closest parent below the new directory (docstrings of both; "
+    "vf/sharesmodel.py RefIndex.add / remove), with or without a rescan",
     "not judged: that permitted requests are served (only counted), search result completeness (C07/C14), attributes",
 ]
 MIN_OBS = {
-    'quick': {'requests_judged': 260, 'search_replies_judged': 160, 'shares_replies_judged': 90, 'reeval_checks': 480,
-              'changes_applied': 540, 'uploads_created_permitted': 210, 'reeval_uploads_unfinished': 430,
-              'reeval_requeue_expected': 95, 'reeval_user_aborted_checked': 40, 'phrase_checks': 550},
-    'thorough': {'requests_judged': 10400, 'search_replies_judged': 6400, 'shares_replies_judged': 3600,
-                 'reeval_checks': 19200, 'changes_applied': 21600, 'uploads_created_permitted': 8400,
-                 'reeval_uploads_unfinished': 17200, 'reeval_requeue_expected': 3800,
-                 'reeval_user_aborted_checked': 1600, 'phrase_checks': 22000},
+    'quick': {'requests_judged': 260, 'search_replies_judged': 120, 'shares_replies_judged': 75, 'reeval_checks': 600,
+              'changes_applied': 620, 'uploads_created_permitted': 290, 'reeval_uploads_unfinished': 570,
+              'reeval_requeue_expected': 140, 'reeval_user_aborted_checked': 28, 'phrase_checks': 200,
+              'double_changes': 55, 'judgements_on_moved_files': 140},
+    'thorough': {'requests_judged': 10000, 'search_replies_judged': 4800, 'shares_replies_judged': 3000,
+                 'reeval_checks': 24000, 'changes_applied': 24800, 'uploads_created_permitted': 11600,
+                 'reeval_uploads_unfinished': 22800, 'reeval_requeue_expected': 5600,
+                 'reeval_user_aborted_checked': 1100, 'phrase_checks': 8000, 'double_changes': 2200,
+                 'judgements_on_moved_files': 5600},
 }
 SHARD_TIMEOUT = {'quick': 600, 'thorough': 5400}
 SIZES = {'quick': 300, 'thorough': 12000}
@@ -178,12 +190,13 @@ def _rand_change(rng: random.Random, g: dict, prefer: tuple = ()) -> dict:
     if kind == 'dirmode':
         return {'k': 'dirmode', 'd': rng.choice(shared), 'mode': rng.choice(MODES), 'users': list(rng.choice(USER_LISTS))}
     if kind == 'dirremove':
-        return {'k': 'dirremove', 'd': rng.choice(shared)}
+        return {'k': 'dirremove', 'd': rng.choice(shared), 'rescan': rng.random() < 0.6}
     k = rng.choice(removed)
-    return {'k': 'diradd', 'd': k, 'mode': rng.choice(MODES), 'users': list(rng.choice(USER_LISTS))}
+    return {'k': 'diradd', 'd': k, 'mode': rng.choice(MODES), 'users': list(rng.choice(USER_LISTS)),
+            'rescan': rng.random() < 0.7}
 
 
-def _forbid(rng: random.Random, g: dict, u: str, k: int) -> dict:
+def _forbid(rng: random.Random, g: dict, u: str, k: int, rescan: bool = True) -> dict:
     d = g['dirs'][k]
     opts = ['block', 'block', 'dirremove']
     if d['mode'] == FRIENDS:
@@ -208,7 +221,28 @@ def _forbid(rng: random.Random, g: dict, u: str, k: int) -> dict:
             cands.append((FRIENDS, list(d['users'])))
         mode, users = rng.choice(cands)
         return {'k': 'dirmode', 'd': k, 'mode': mode, 'users': users}
-    return {'k': 'dirremove', 'd': k}
+    return {'k': 'dirremove', 'd': k, 'rescan': rescan}
+
+
+#: changes the library is told about at once (event emitted by the shares API); the others (friends, blocks)
+#: are found by the user-management poll
+SYNC_KINDS = ('dirmode', 'dirremove', 'diradd')
+
+
+def _pick(rng: random.Random, make, ok, tries: int = 12) -> dict:
+    st = make()
+    for _ in range(tries):
+        if ok(st):
+            break
+        st = make()
+    return st
+
+
+def _after(g: dict, st: dict) -> dict:
+    g2 = {'friends': set(g['friends']), 'blocked': dict(g['blocked']),
+          'dirs': [dict(d, users=list(d['users'])) for d in g['dirs']]}
+    _apply_g(g2, st)
+    return g2
 
 
 def _permit(rng: random.Random, g: dict, u: str, k: int, orig: dict) -> dict:
@@ -270,7 +304,11 @@ def _shares_step(rng: random.Random, g: dict) -> dict:
 def gen_plan(rng: random.Random, n: int) -> dict:
     modes = ASSIGNMENTS[n % len(ASSIGNMENTS)]
     nd = len(modes)
-    parents = rng.choice(LAYOUTS[nd])
+    template = rng.choice(['reeval'] * 8 + ['requests'] * 4 + ['search'] * 4 + ['shares'] * 2 + ['mixed'] * 2 +
+                          ['double'] * 5 + ['nested'] * 4)
+    if template == 'nested' and nd < 3:
+        template = 'requests'
+    parents = [None, 0, 1] if template == 'nested' else rng.choice(LAYOUTS[nd])
     g = {'friends': set(rng.choice([['fred'], ['fred'], ['fred'], [], ['fred', 'stan'], ['fred', 'lisa', 'stan']])),
          'blocked': {}, 'dirs': []}
     rels = []
@@ -283,7 +321,6 @@ def gen_plan(rng: random.Random, n: int) -> dict:
     for u in PEOPLE:
         if rng.random() < 0.25:
             g['blocked'][u] = rng.choice(['UPLOADS', 'SEARCHES', 'SHARES', 'ALL', 'SEARCHES|UPLOADS', 'INFO'])
-    template = rng.choice(['reeval'] * 8 + ['requests'] * 4 + ['search'] * 4 + ['shares'] * 2 + ['mixed'] * 2)
     plan = {'template': template, 'slots0': 2, 'behave': {}, 'hold': 120.0, 'ghost': [], 'target_state': None}
     steps: list = []
 
@@ -350,6 +387,79 @@ def gen_plan(rng: random.Random, n: int) -> dict:
             add(_forbid(rng, g, u, k))
             if len(steps) < 8 and rng.random() < 0.5:
                 add(_permit(rng, g, u, k, orig))
+    elif template == 'double':
+        # two changes in close succession: the first forbids an upload that is being served (its abort takes
+        # loop steps: the re-evaluation is suspended), the second forbids / permits another upload meanwhile
+        u1, u2 = 'fred', rng.choice(['lisa', 'stan'])
+        k1, k2 = rng.randrange(nd), rng.randrange(nd)
+        for u, k in ((u1, k1), (u2, k2)):
+            d = g['dirs'][k]
+            if d['mode'] == FRIENDS:
+                g['friends'].add(u)
+            elif d['mode'] == USERS and u not in d['users']:
+                d['users'].append(u)
+            if 'uploads' in _g_flags(g, u):
+                g['blocked'].pop(u)
+        state2 = rng.choice(['QUEUED', 'UPLOADING', 'UPLOADING', 'ABORTED'])
+        plan['target_state'] = 'double:' + state2
+        plan['slots0'] = 1 if state2 == 'QUEUED' else 2
+        freeze()
+        orig2 = {'mode': g['dirs'][k2]['mode'], 'users': list(g['dirs'][k2]['users'])}
+        add(_request(rng, g, u1, k1, rng.randrange(2), 'exact'))
+        add(_request(rng, g, u2, k2, rng.randrange(2), 'exact'))
+        if state2 == 'ABORTED':
+            add(_pick(rng, lambda: _forbid(rng, g, u2, k2, rescan=False),
+                      lambda st: _g_permitted(_after(g, st), u1, k1) and st['k'] != 'dirremove'))
+        for _round in range(rng.choice([1, 1, 2])):
+            if not _g_permitted(g, u1, k1):
+                break
+            want_sync = rng.random() < 0.7
+            c1 = _pick(rng, lambda: _forbid(rng, g, u1, k1, rescan=False),
+                       lambda st: (_g_permitted(_after(g, st), u2, k2) == _g_permitted(g, u2, k2)
+                                   and (not want_sync or st['k'] in SYNC_KINDS)))
+            g1 = _after(g, c1)
+            if _g_permitted(g1, u2, k2):
+                make2 = lambda: _forbid(rng, g1, u2, k2, rescan=False)     # noqa: E731
+            else:
+                make2 = lambda: _permit(rng, g1, u2, k2, orig2)            # noqa: E731
+            # the second change must reach the library while the first is being worked on: at once (shares
+            # API), or found by the same poll as the first
+            c2 = _pick(rng, make2, lambda st: (not _g_permitted(_after(g1, st), u1, k1)
+                                               and (st['k'] in SYNC_KINDS or c1['k'] not in SYNC_KINDS))
+                       and not (st['k'] == 'diradd'))
+            if c2['k'] == 'diradd':
+                c2['rescan'] = False
+            gap = ['y', rng.randint(0, 8)] if rng.random() < 0.85 else ['ms', rng.choice([1, 2, 5, 10, 30])]
+            steps.append({'k': 'double', 'c1': c1, 'c2': c2, 'gap': gap})
+            _apply_g(g, c1)
+            _apply_g(g, c2)
+            if _round == 0 and len(steps) < 7:
+                # make the first upload permitted again for a second round
+                add(_permit(rng, g, u1, k1, {'mode': g['dirs'][k1]['mode'], 'users': list(g['dirs'][k1]['users'])}))
+    elif template == 'nested':
+        # A contains B contains C: an inner directory is removed without a rescan, its files belong to the
+        # closest remaining parent from then on
+        freeze()
+        victim = rng.choice([2, 2, 2, 1])
+        if rng.random() < 0.3:
+            ok = [u for u in PEOPLE if _g_permitted(g, u, victim)]
+            if ok:
+                add(_request(rng, g, rng.choice(ok), victim, rng.randrange(2), 'exact'))
+        add({'k': 'dirremove', 'd': victim, 'rescan': False})
+        word = g['dirs'][victim]['word']
+        for _ in range(rng.randint(3, 5)):
+            r = rng.random()
+            if r < 0.45:
+                add(_request(rng, g, None, victim, rng.randrange(2), 'exact'))
+            elif r < 0.8:
+                add({'k': 'search', 'carrier': rng.choice(['server', 'filesearch']), 'u': rng.choice(PEOPLE),
+                     'q': rng.choice([word, 'song', 'tune', 'mp3'])})
+            else:
+                add({'k': 'shares', 'u': rng.choice(PEOPLE)})
+        if len(steps) < 7 and rng.random() < 0.4:
+            add({'k': 'diradd', 'd': victim, 'mode': rng.choice(MODES), 'users': list(rng.choice(USER_LISTS)),
+                 'rescan': rng.random() < 0.5})
+            add(_request(rng, g, None, victim, rng.randrange(2), 'exact'))
     else:
         if rng.random() < 0.5:
             plan['ghost'] = sorted(rng.sample(range(nd), rng.randint(1, nd)))
@@ -425,7 +535,7 @@ def run_case(params: dict) -> dict:
             lst.append(value)
 
     async def main(w: World):
-        from aioslsk.events import TransferAddedEvent
+        from aioslsk.events import BlockListChangedEvent, FriendListChangedEvent, TransferAddedEvent
         from aioslsk.exceptions import InvalidStateTransition
         from aioslsk.protocol.messages import (
             AddUser, DistributedBranchLevel, DistributedBranchRoot, DistributedSearchRequest, ExcludedSearchPhrases,
@@ -505,6 +615,8 @@ def run_case(params: dict) -> dict:
                 if it is None:
                     return None, None, 'unmodelled'
                 ent = model.entitled(user, it.owner)
+                if it.moved:
+                    add('judgements_on_moved_files')      # handed over by add / remove without a rescan
                 if not ent:
                     why_e = 'locked'
                 elif disk and not os.path.exists(ap):
@@ -783,9 +895,14 @@ def run_case(params: dict) -> dict:
                     last[m_.username] = m_
             return [u_ for u_, m_ in last.items() if isinstance(m_, AddUser.Request) and u_ in PEOPLE]
 
-        async def do_change(st: dict):
+        noticed = asyncio.Event()      # the library has found a change of the friends / block list (its poll)
+        up.listen(FriendListChangedEvent, lambda ev: noticed.set())
+        up.listen(BlockListChangedEvent, lambda ev: noticed.set())
+
+        async def apply_change(st: dict):
+            """Writes one configuration change into the client and into the harness' copy; returns its label
+            (None: not applicable in the current configuration)."""
             kind = st['k']
-            before = {id(t): (t.state.VALUE.name, t.abort_reason) for t in uploads()}
             ck = kind
             if kind == 'friend':
                 ck = 'friend' + st['op']
@@ -817,7 +934,7 @@ def run_case(params: dict) -> dict:
                 p = paths[st['d']]
                 if p not in model.dirs:
                     trace.append((round(w.now, 3), 'skipped', st))
-                    return
+                    return None
                 ck = f"dirmode:{model.dirs[p].mode}->{st['mode']}"
                 client.shares.update_shared_directory(p, share_mode=DirectoryShareMode(st['mode']), users=list(st['users']))
                 model.update(p, st['mode'], list(st['users']))
@@ -825,22 +942,41 @@ def run_case(params: dict) -> dict:
                 p = paths[st['d']]
                 if p not in model.dirs:
                     trace.append((round(w.now, 3), 'skipped', st))
-                    return
+                    return None
                 client.shares.remove_shared_directory(p)
-                model.remove(p)
-                await up.call(client.shares.scan())
-                model.scan_all()
-                self_check('after remove + rescan')
+                model.remove(p)             # documented: the files go to the closest remaining parent, else vanish
+                if st.get('rescan', True):
+                    await up.call(client.shares.scan())
+                    model.scan_all()
+                else:
+                    ck = 'dirremove-norescan'
+                self_check('after remove')
             elif kind == 'diradd':
                 p = paths[st['d']]
                 if p in model.dirs:
                     trace.append((round(w.now, 3), 'skipped', st))
-                    return
+                    return None
                 client.shares.add_shared_directory(p, share_mode=DirectoryShareMode(st['mode']), users=list(st['users']))
-                model.add(p, st['mode'], list(st['users']))
-                await up.call(client.shares.scan())
-                model.scan_all()
-                self_check('after add + rescan')
+                model.add(p, st['mode'], list(st['users']))   # documented: takes over the closest parent's files below it
+                if st.get('rescan', True):
+                    await up.call(client.shares.scan())
+                    model.scan_all()
+                else:
+                    ck = 'diradd-norescan'
+                self_check('after add')
+                alias_of[st['d']] = client.shares.get_shared_directory(p).alias
+            else:
+                raise RuntimeError(f'not a change: {st}')
+            return ck
+
+        def snapshot() -> dict:
+            return {id(t): (t.state.VALUE.name, t.abort_reason) for t in uploads()}
+
+        async def do_change(st: dict):
+            before = snapshot()
+            ck = await apply_change(st)
+            if ck is None:
+                return
             clock['last_change'] = w.now
             if st.get('then_slots') is not None:
                 settings.transfers.limits.upload_slots = st['then_slots']
@@ -850,8 +986,44 @@ def run_case(params: dict) -> dict:
             add('changes_applied')
             cov('change_kinds', ck.split(':')[0])
             trace.append((round(w.now, 3), 'change', ck, {k_: v for k_, v in st.items() if k_ != 'k'},
-                          [(t.username, s[0], s[1]) for t in uploads() for s in [before[id(t)]]]))
+                          [(t.username,) + before.get(id(t), ('?', None)) for t in uploads()]))
             await settle(REEVAL_WINDOW)
+            reeval(before, ck, st)
+
+        async def do_double(st: dict):
+            """Two changes in close succession; everything is judged 3 s after the second."""
+            c1, c2, gap = st['c1'], st['c2'], st['gap']
+            before = snapshot()
+            noticed.clear()
+            ck1 = await apply_change(c1)
+            if ck1 is not None and c1['k'] not in SYNC_KINDS and c2['k'] in SYNC_KINDS:
+                # the second change is to arrive while the library works on the first: wait until its poll
+                # has found the first one
+                try:
+                    await asyncio.wait_for(noticed.wait(), 1.5)
+                except asyncio.TimeoutError:
+                    add('double_first_change_not_noticed')
+            if gap[0] == 'y':
+                await yields(gap[1])
+            else:
+                await asyncio.sleep(gap[1] / 1000.0)
+            mid = snapshot()
+            ck2 = await apply_change(c2)
+            clock['last_change'] = w.now
+            add('changes_applied', int(ck1 is not None) + int(ck2 is not None))
+            add('double_changes')
+            for ck_ in (ck1, ck2):
+                if ck_ is not None:
+                    cov('change_kinds', ck_.split(':')[0])
+            cov('double_gaps', f'{gap[0]}{gap[1]}')
+            ck = f'double:{ck1}+{ck2}'
+            trace.append((round(w.now, 3), 'double-change', ck1, c1, gap, ck2, c2,
+                          [(t.username,) + before.get(id(t), ('?', None)) + (mid.get(id(t), ('?',))[0],)
+                           for t in uploads()]))
+            await settle(REEVAL_WINDOW)
+            reeval(before, ck, st)
+
+        def reeval(before: dict, ck: str, st: dict):
             # ---- re-evaluation ------------------------------------------------------------------------
             for t in uploads():
                 b = before.get(id(t))
@@ -950,6 +1122,8 @@ def run_case(params: dict) -> dict:
                 await do_shares(st)
             elif k in ('friend', 'block', 'dirmode', 'dirremove', 'diradd'):
                 await do_change(st)
+            elif k == 'double':
+                await do_double(st)
             elif k in ('abort', 'pause'):
                 await do_user_action(st)
             elif k == 'slots':
